@@ -14,14 +14,27 @@ RULE = ("choose: instance-type tables of 0-12 types (prices in 1/64 units drawn 
         "(Queued/Locked/Running, priorities 0-6 with ties, running / lingering-process flags) x pool states "
         "(quota reached after 0,1,2,never creates; Create succeeding 0,1,2,always times; per type idle 0-2, "
         "booting 0-2, StartContainer by idle count / always failing / always succeeding / failing once then succeeding). "
+        "choose (near the bounds): byte quantities next to the explicit bounds of C16_inrange_of_bounds (ram+keep+reserve "
+        "= floor((2^63-1)/100) -2..+2, tmp sum 2^62 -2..+2, PDH manifest length 42*2^36+79 -43..+84 and around the wrap "
+        "of the image estimate) against types whose RAM / scratch are the resulting needs -1/0/+1 or 2^63-1. "
+        "rq (exhaustive small scope): every multiset of 0-3 containers (priority 1|2, Locked|Queued, type) x 1-2 types x "
+        "quota 0|1|never x Create succeeding 0|1|always times x per type idle 0|1, booting 0|1, start by idle | fail-once "
+        "(97560 cases: all in thorough, a sample of 400 in quick). "
+        "cq: a real container.Queue with the dispatcher's typeChooser over a 6-type table (1/2/4 VCPUs on demand and "
+        "preemptible, differing RAM and scratch); 1-6 containers whose constraint vectors (VCPUs, preemptible, tmp mount, "
+        "RAM) are mostly relatives of one base vector; histories of polls with controllable windows, own and foreign "
+        "operations, faults, a restart (containers Locked by this dispatcher, empty queue); then one pass. "
         "non-trivial: choose with >= 2 types, rq with >= 2 containers that are not skipped; distinct = distinct case line")
 ASSUMPTIONS = [
     "prices are finite float64 values that are multiples of 1/64 (compared exactly); NaN prices are excluded",
     "instance types have non-negative RAM and VCPUs (the loop compares the first candidate with a zero-valued 'best')",
-    "(ram + keep_cache_ram + ReserveExtraRAM) * 100, the tmp capacity sum and the image estimate fit in int64",
+    "(ram + keep_cache_ram + ReserveExtraRAM) * 100, the tmp capacity sum and the image estimate fit in int64 "
+    "(implied by |ram+keep+reserve| <= 92233720368547758, manifest length <= 42*2^36+79, |tmp sum| <= 2^62: C16_inrange_of_bounds); "
+    "beyond that the wrapped values are compared model = implementation and the oracle is silent",
     "a type's RAM is adequate when RAM >= floor((ram + keep_cache + reserve) * 100 / 95), as the code and DESIGN.md read 'after the 5 percent discount'",
     "a higher-priority Locked container whose previous crunch-run process has not exited (KillContainer = true) waits for that process, not for a worker (DESIGN section 8, F8)",
-    "within one pass Create does not fail and later succeed for the same instance type (the stub pool's Create is monotone, as upstream's stubPool.canCreate)",
+    "within one pass Create does not fail and later succeed for the same instance type (the stub pool's Create is monotone, as upstream's stubPool.canCreate; "
+    "proved of the Lean model of worker.Pool.Create / throttle at a frozen clock, C16_realpool_monotone, which the real pool is run against in op rqp)",
 ]
 TRUSTED = ["recording stub pool / queue wrapper in zz_verif_c16_test.go (shaped like upstream's stubPool and test.Queue)",
            "lockContainer goroutines are awaited by goroutine count; Lock calls are compared as a set"]
@@ -289,6 +302,81 @@ def _gen_rq(rng, maxn, real=False):
     return f"{'rqp' if real else 'rq'} {quota}:{cancreate} {types} {es}"
 
 
+# ---- next to the explicit bounds of C16_inrange_of_bounds and to the top of the int64 range
+
+RAM_SUM_BOUND = (I63 - 1) // 100            # largest ram+keep+reserve whose product with 100 fits in int64
+IMG_LEN_BOUND = 42 * (1 << 36) + 79         # largest manifest length admitted by the theorem
+TMP_SUM_BOUND = 1 << 62
+
+
+def _gen_choose_big(rng):
+    """Tables and containers whose byte quantities sit next to the bounds under which the int64 arithmetic is
+    proved not to wrap (exactly at the bound / one below: the oracle is active; one above: the model and the
+    implementation must still agree on the wrapped values, the oracle is silent outside the stated range)."""
+    mode = rng.choice(["ram", "ram", "ram", "tmp", "img", "mix"])
+    reserve = rng.choice([0, 0, 1, 1 << 30, RAM_SUM_BOUND // 2])
+    keep = rng.choice([0, 0, 1 << 28, RAM_SUM_BOUND // 3])
+    if mode in ("ram", "mix"):
+        total = RAM_SUM_BOUND + rng.choice([-2, -1, 0, 0, 0, 1, 1, 2, 1000])
+    else:
+        total = rng.choice([0, 1000, 1 << 40])
+    ram = total - keep - reserve
+    if ram < 0:
+        keep, reserve = 0, min(reserve, total)
+        ram = total - reserve
+    need_ram = _tdiv(total * 100, 95) if _in64(total * 100) else 0
+    image, img = b"", 0
+    if mode in ("img", "mix") or rng.random() < 0.15:
+        n = IMG_LEN_BOUND + rng.choice([-43, -42, -1, 0, 0, 1, 42, 84]) if rng.random() < 0.8 else 2 * IMG_LEN_BOUND + rng.choice([-80, 0, 79, 80, 81])
+        image = _pdh(rng, n=n)
+        img = spec_image_size(image)
+    if mode in ("tmp", "mix"):
+        tmp_total = TMP_SUM_BOUND + rng.choice([-2, -1, 0, 0, 1, 2])
+    elif mode == "img":
+        tmp_total = img + rng.choice([-1, 0, 1])
+    else:
+        tmp_total = rng.choice([0, 1000])
+    tmp_total = min(tmp_total, I63 - 1)
+    need_scratch = max(tmp_total, img) + img
+    mounts = [("tmp", c) for c in _split_sum(rng, tmp_total, rng.randint(1, 3))] if tmp_total > 0 else []
+    if rng.random() < 0.3:
+        mounts.append((rng.choice(["collection", "Tmp", ""]), rng.choice([0, I63 - 1])))
+    rng.shuffle(mounts)
+    vcpus = rng.randint(0, 4)
+    ts = []
+    for i in range(rng.randint(1, 5)):
+        r = rng.random()
+        t_ram = (need_ram + rng.choice([-1, 0, 0, 1])) if r < 0.6 else rng.choice([I63 - 1, 0, 1 << 33])
+        t_sc = (need_scratch + rng.choice([-1, 0, 0, 1])) if rng.random() < 0.6 else rng.choice([I63 - 1, 0, 1 << 40])
+        ts.append({"name": str(i + 1), "vcpus": vcpus + rng.choice([-1, 0, 0, 1, 2]), "ram": min(max(0, t_ram), I63 - 1),
+                   "scratch": min(max(0, t_sc), I63 - 1), "price": rng.choice([0, 16, 64, 64, 128]), "pre": rng.random() < 0.15})
+        ts[-1]["vcpus"] = max(0, ts[-1]["vcpus"])
+    ms = ";".join(f"{k}={c}" for k, c in mounts) or "-"
+    return f"choose {reserve} {_fmt_types(ts)} {vcpus}:{ram}:{keep}:0 {_hex(image)} {ms}"
+
+
+# ---- exhaustive small scope: every queue snapshot x pool state within the scope below
+
+def _enum_rq():
+    """All `rq` cases with 1-2 instance types, 0-3 containers (priority 1|2, Locked|Queued, any type; as
+    multisets - the order of the snapshot is a Go map's and every outcome of the unstable sort is in the
+    model's allowed set), quota reached after 0|1|never creates, Create succeeding 0|1|always times, per type
+    idle 0|1, booting 0|1, StartContainer by idle count | failing once then succeeding."""
+    import itertools
+    out = []
+    for nt in (1, 2):
+        opts = [(p, st, ty) for p in (2, 1) for st in "LQ" for ty in range(nt)]
+        ptypes = [f"{i}:{b}:{m}" for i in (0, 1) for b in (0, 1) for m in "ix"]
+        pools = [",".join(c) for c in itertools.product(ptypes, repeat=nt)]
+        for n in range(0, 4):
+            for combo in itertools.combinations_with_replacement(opts, n):
+                es = ",".join(f"{u + 1}:{p}:{st}:{ty}:-" for u, (p, st, ty) in enumerate(combo)) or "-"
+                for quota in (0, 1, 99):
+                    for cc in (0, 1, 99):
+                        for pl in pools:
+                            out.append(f"rq {quota}:{cc} {pl} {es}")
+    return out
+
 
 # ---- container.Queue histories (op cq)
 
@@ -444,6 +532,10 @@ MALFORMED = [
     "choose 0 1:1:1:1:1:0 1:1:0:0 - tmp",
     "choose 0 1:1:1:1:1:0 1:1:0:0 - tmp=x",
     "arith zz -",
+    "arith - tmp=9223372036854775808",
+    "choose 0 1:1:9223372036854775808:1:1:0 1:1:0:0 - -",
+    "choose 0 1:1:1:1:1:0 1:-9223372036854775809:0:0 - -",
+    "choose 9223372036854775808 1:1:1:1:1:0 1:1:0:0 - -",
     "arith - tmp=",
     "rq 1 0:0:i -",
     "rq 1:1 0:0:q -",
@@ -481,6 +573,11 @@ def generate(rng, tier):
         cases.append(_gen_rq(rng, 6 if quick and rng.random() < 0.7 else 8, real=True))
     for _ in range(600 if quick else 15000):
         cases.append(_gen_cq(rng))
+    for _ in range(200 if quick else 6000):
+        cases.append(_gen_choose_big(rng))
+    # exhaustive small scope of queue snapshot x pool state: all of it in thorough, a sample in quick
+    ex = _enum_rq()
+    cases.extend(rng.sample(ex, 400) if quick else ex)
     return cases
 
 
@@ -758,12 +855,24 @@ def describe(cases, impl):
             continue
         try:
             if f[0] == "choose":
+                tot = sum(int(x) for x in f[3].split(":")[1:3]) + int(f[1])
+                if abs(tot - RAM_SUM_BOUND) <= 1000:
+                    d["choose_near_ram_bound"] = d.get("choose_near_ram_bound", 0) + 1
+                    if not _in64(tot * 100):
+                        d["choose_beyond_int64"] = d.get("choose_beyond_int64", 0) + 1
                 k = str(len(_types(f[2])))
                 d["table_sizes"][k] = d["table_sizes"].get(k, 0) + 1
                 kind = r.split(":")[0].split("|")[0]
                 d["choose_outcomes"][kind] = d["choose_outcomes"].get(kind, 0) + 1
                 if "|" in r:
                     d["choose_runs_with_several_results"] += 1
+            elif f[0] == "cq":
+                needs = [int(x.split(":")[3]) for x in f[3].split(",")]
+                d["cq_histories"] = d.get("cq_histories", 0) + 1
+                if any(a != b and (a ^ b) == 16 for a in needs for b in needs):
+                    d["cq_with_twins_differing_in_preemptible"] = d.get("cq_with_twins_differing_in_preemptible", 0) + 1
+                if any(x.split(":")[4] == "m" and x.split(":")[1] == "L" for x in f[3].split(",")):
+                    d["cq_restart_with_locked"] = d.get("cq_restart_with_locked", 0) + 1
             elif f[0] in ("rq", "rqp"):
                 ents = _parse_rq(c)
                 k = str(len(ents))
